@@ -427,7 +427,7 @@ func scanWorker(tier string) {
 	scs := scanScenarios(tier)
 	plans := make([][]scanPlan, len(scs))
 	dec := json.NewDecoder(bufio.NewReaderSize(os.Stdin, 1<<20))
-	w := bufio.NewWriterSize(os.Stdout, 1<<20)
+	w := bufio.NewWriterSize(protoOut, 1<<20)
 	enc := json.NewEncoder(w)
 	for {
 		var t scanTask
@@ -521,6 +521,7 @@ func runScanCheck(tier string, rep *Report) {
 				}
 				if err != nil {
 					rep.HarnessErr = append(rep.HarnessErr, fmt.Sprintf("scan worker died on %+v", t))
+					wp.cmd.Process.Kill()
 					wp.cmd.Wait()
 					wp, _ = startWorker("scanworker", tier)
 					continue
